@@ -24,7 +24,7 @@ CRASHY = False          # every Application run already happens in its own forke
 RUN_TIMEOUT = 600
 NO_SHRINK = {'problem', 'nx', 'steps'}
 
-PROBLEMS = {'drop': [6, 8, 10], 'cavity': [5, 6, 8], 'tg': [6, 8, 10], 'sod': [20, 40, 60], 'adapth': [8, 10, 12], 'impact': [6, 8, 10]}
+PROBLEMS = {'drop': [6, 8, 10], 'cavity': [5, 6, 8], 'tg': [6, 8, 10], 'sod': [20, 40, 60], 'adapth': [8, 10, 12], 'impact': [6, 8, 10], 'tg_gtvf': [6, 8]}
 NNPS = ['ll', 'box', 'sh', 'esh', 'ci', 'sfc', 'tree', 'comp_tree', 'strat_hash', 'strat_sfc']
 # the classes that implement get_spatially_ordered_indices; the others refuse --reorder-freq with NotImplementedError
 REORDER = {'ll', 'box', 'ci', 'sfc', 'strat_sfc', 'tree', 'comp_tree'}
@@ -55,7 +55,8 @@ PROPS = {
 }
 PROBES = {'C05': ['sim_schedule_runs', 'real_openmp_runs', 'cache_on', 'sorted_runs', 'reorder_runs', 'reorder_on_periodic',
                   'cross_thread_cache_use', 'write_set_chunks_checked', 'bit_identical_checked', 'repeat_checked',
-                  'multi_array_problem', 'reorder_on_mirror', 'arrays_start_to_interact_late', 'sorted_with_partly_valid_gids']}
+                  'multi_array_problem', 'reorder_on_mirror', 'arrays_start_to_interact_late', 'sorted_with_partly_valid_gids',
+                  'reorder_with_an_integrator_that_starts_without_refresh']}
 
 _BASE = {}
 
@@ -249,7 +250,7 @@ def prepare(prop, tier):
 
 
 def gen(t, prop, tier):
-    problem = t.wchoice([('drop', 3), ('cavity', 4), ('tg', 4), ('sod', 3), ('adapth', 3), ('impact', 3)])
+    problem = t.wchoice([('drop', 3), ('cavity', 4), ('tg', 4), ('sod', 3), ('adapth', 3), ('impact', 3), ('tg_gtvf', 2)])
     nx = t.choice(PROBLEMS[problem])
     steps = t.choice([2, 3, 5, 8]) if problem != 'impact' else t.choice([3, 6, 8, 10])
     nnps = t.choice(NNPS)
@@ -367,8 +368,10 @@ def execute(sc, prop):
             probe('sorted_with_partly_valid_gids')
     if sc.get('reorder'):
         probe('reorder_runs')
-        if problem == 'tg':
+        if problem in ('tg', 'tg_gtvf'):
             probe('reorder_on_periodic')
+        if problem == 'tg_gtvf':
+            probe('reorder_with_an_integrator_that_starts_without_refresh')
         if problem == 'sod':
             probe('reorder_on_mirror')
     if problem in ('cavity', 'impact'):
